@@ -221,6 +221,14 @@ def fsCreate (st : St) (i g : Nat) (ok : Bool) : St :=
 
 def fsDelete (st : St) (i : Nat) : St := { st with cache := aerase i st.cache }
 
+/-- The node changes under a cached instance (say a feature its manifest asks for is no longer
+    available): from now on `configure` raises `ContainerSetupError` for it.  The cache file itself -
+    hence its generation - is untouched, so a container of that generation may already exist. -/
+def cfgBreak (st : St) (i : Nat) : St :=
+  match alookup i st.cache with
+  | some (g, _) => { st with cache := ainsert i (g, false) st.cache }
+  | none => st
+
 /-- A cleanup file is written into `running/<i>/data` (through the link). -/
 def flag (st : St) (i : Nat) (k : FlagKind) : St :=
   match alookup i st.running with
@@ -255,6 +263,7 @@ def wipe (st : St) : St := { st with running := [], cleanup := [], active := fal
 inductive Op
   | fsCreate (i g : Nat) (ok : Bool)
   | fsDelete (i : Nat)
+  | cfgBreak (i : Nat)
   | evCreated (n : EvName) (order : List CId) (corder : List Nat)
   | evModified (n : EvName) (order : List CId) (corder : List Nat)
   | evDeleted (n : EvName)
@@ -268,6 +277,7 @@ inductive Op
 def step (st : St) : Op → St
   | .fsCreate i g ok => fsCreate st i g ok
   | .fsDelete i => fsDelete st i
+  | .cfgBreak i => cfgBreak st i
   | .evCreated n o co => onCreated st n o co
   | .evModified n o co => onModified st n o co
   | .evDeleted n => onDeleted st n
